@@ -24,7 +24,12 @@ def cls (n : Ns) (t : Task) : Nat :=
     else 0
   | [] => 0
 
-def cnt (st : St) (n : Ns) (k : Nat) : Nat := st.tasks.countP (fun t => cls n t == k)
+def cntL (l : List Task) (n : Ns) (k : Nat) : Nat := l.countP (fun t => cls n t == k)
+
+def cnt (st : St) (n : Ns) (k : Nat) : Nat := cntL st.tasks n k
+
+@[simp] theorem cnt_mk (ts : List Task) (sh : Shared) (n : Ns) (k : Nat) :
+    cnt { tasks := ts, sh := sh } n k = cntL ts n k := rfl
 
 /-- the five phases of a (sid, namespace); `m0` = the sid was connected to it at the start -/
 def Phase (m0 mem : Bool) (pend calls w a b : Nat) : Prop :=
@@ -54,19 +59,19 @@ theorem countP_set_some {α : Type} (p : α → Bool) (l : List α) (i : Nat) (t
   have := List.boole_getElem_le_countP (p := p) hi
   omega
 
-theorem cnt_set (st : St) (i : Nat) (t t' : Task) (sh' : Shared) (h : st.tasks[i]? = some t)
+theorem cnt_set (st : St) (i : Nat) (t t' : Task) (h : st.tasks[i]? = some t)
     (n : Ns) (k : Nat) :
-    cnt { tasks := st.tasks.set i t', sh := sh' } n k + (if cls n t = k then 1 else 0)
+    cntL (st.tasks.set i t') n k + (if cls n t = k then 1 else 0)
       = cnt st n k + (if cls n t' = k then 1 else 0) := by
   have := countP_set_some (fun u => cls n u == k) st.tasks i t t' h
-  simpa [cnt] using this
+  simpa [cnt, cntL] using this
 
 theorem mem_of_getElem? {α : Type} {l : List α} {i : Nat} {t : α} (h : l[i]? = some t) : t ∈ l :=
   List.mem_of_getElem? h
 
 theorem cnt_pos (st : St) (i : Nat) (t : Task) (h : st.tasks[i]? = some t) (n : Ns) :
     1 ≤ cnt st n (cls n t) := by
-  unfold cnt
+  unfold cnt cntL
   exact List.countP_pos_iff.mpr ⟨t, mem_of_getElem? h, by simp⟩
 
 theorem mem_set_cases {α : Type} {l : List α} {i : Nat} {x u : α} (h : u ∈ l.set i x) :
@@ -122,9 +127,8 @@ theorem inv_update (m0 : Ns → Bool) (st : St) (i : Nat) (t t' : Task) (sh' : S
     (hsh : ∀ n', n' ≠ n → sh'.mem n' = st.sh.mem n' ∧ sh'.pend n' = st.sh.pend n' ∧
               sh'.calls n' = st.sh.calls n')
     (hn : Phase (m0 n) (sh'.mem n) (sh'.pend n) (sh'.calls n).length
-            (cnt { tasks := st.tasks.set i t', sh := sh' } n 1)
-            (cnt { tasks := st.tasks.set i t', sh := sh' } n 2)
-            (cnt { tasks := st.tasks.set i t', sh := sh' } n 3)) :
+            (cntL (st.tasks.set i t') n 1) (cntL (st.tasks.set i t') n 2)
+            (cntL (st.tasks.set i t') n 3)) :
     Inv m0 { tasks := st.tasks.set i t', sh := sh' } := by
   refine ⟨?_, hcont, ?_⟩
   · intro u hu
@@ -134,15 +138,15 @@ theorem inv_update (m0 : Ns → Bool) (st : St) (i : Nat) (t t' : Task) (sh' : S
   · intro n'
     by_cases hnn : n' = n
     · subst hnn; exact hn
-    · have h1 := cnt_set st i t t' sh' hi n' 1
-      have h2 := cnt_set st i t t' sh' hi n' 2
-      have h3 := cnt_set st i t t' sh' hi n' 3
+    · have h1 := cnt_set st i t t' hi n' 1
+      have h2 := cnt_set st i t t' hi n' 2
+      have h3 := cnt_set st i t t' hi n' 3
       obtain ⟨c0, c0'⟩ := hcls n' hnn
       obtain ⟨e1, e2, e3⟩ := hsh n' hnn
       have hp := hI.phase n'
       simp only [c0, c0'] at h1 h2 h3
       simp at h1 h2 h3
-      simp only [ncalls, e1, e2, e3, h1, h2, h3] at hp ⊢
+      simp only [ncalls, cnt_mk, e1, e2, e3, h1, h2, h3] at hp ⊢
       exact hp
 
 theorem upd_same {α : Type} (f : Ns → α) (n : Ns) (v : α) : upd f n v n = v := by simp [upd]
@@ -168,13 +172,13 @@ theorem inv_neutral (m0 : Ns → Bool) (st : St) (i : Nat) (t t' : Task) (hI : I
     · exact hI.noRaise u hu
     · exact hpc
   · intro n
-    have h1 := cnt_set st i t t' st.sh hi n 1
-    have h2 := cnt_set st i t t' st.sh hi n 2
-    have h3 := cnt_set st i t t' st.sh hi n 3
+    have h1 := cnt_set st i t t' hi n 1
+    have h2 := cnt_set st i t t' hi n 2
+    have h3 := cnt_set st i t t' hi n 3
     have hp := hI.phase n
     simp only [h0, h0'] at h1 h2 h3
     simp at h1 h2 h3
-    simp only [ncalls, h1, h2, h3] at hp ⊢
+    simp only [ncalls, cnt_mk, h1, h2, h3] at hp ⊢
     exact hp
 
 theorem cls_of_pc_zero (n : Ns) (t : Task)
@@ -197,7 +201,7 @@ theorem inWindow_eq (n : Ns) (t : Task) : inWindow n t = (cls n t == 1) := by
     · cases hp : t.pc <;> simp [hm]
 
 theorem noMark_cnt (st : St) (h : noMark st) (n : Ns) : cnt st n 1 = 0 := by
-  unfold cnt
+  unfold cnt cntL
   apply List.countP_eq_zero.mpr
   intro t ht
   have := h t ht
@@ -216,7 +220,7 @@ theorem phase_frame {m0 mem : Bool} {pend calls w a b w' a' b' : Nat}
     Phase m0 mem pend calls w' a' b' := by subst hw ha hb; exact h
 
 theorem phase_window {m0 : Bool} {c w a b w' a' b' : Nat}
-    (h : Phase m0 true 0 c w a b) (hw0 : w = 0) (hw : w' = 1) (ha : a' = a) (hb : b' = b) :
+    (h : Phase m0 true 0 c w a b) (_hw0 : w = 0) (hw : w' = 1) (ha : a' = a) (hb : b' = b) :
     Phase m0 true 0 c w' a' b' := by
   cases m0 <;> simp [Phase] at h ⊢ <;> omega
 
@@ -259,21 +263,16 @@ theorem inv_mark (m0 : Ns → Bool) (st : St) (i : Nat) (k : Kind) (p : Pc) (n :
     exact ⟨by simp [cls, Ne.symm hne], by simp [cls, Ne.symm hne]⟩
   · intro n' hne
     simp [upd_other _ _ _ _ hne]
-  · have h1 := cnt_set st i _ ⟨k, n :: rest, afterMark k⟩
-      { st.sh with pend := upd st.sh.pend n (st.sh.pend n + 1) } hi n 1
-    have h2 := cnt_set st i _ ⟨k, n :: rest, afterMark k⟩
-      { st.sh with pend := upd st.sh.pend n (st.sh.pend n + 1) } hi n 2
-    have h3 := cnt_set st i _ ⟨k, n :: rest, afterMark k⟩
-      { st.sh with pend := upd st.sh.pend n (st.sh.pend n + 1) } hi n 3
+  · have h1 := cnt_set st i _ ⟨k, n :: rest, afterMark k⟩ hi n 1
+    have h2 := cnt_set st i _ ⟨k, n :: rest, afterMark k⟩ hi n 2
+    have h3 := cnt_set st i _ ⟨k, n :: rest, afterMark k⟩ hi n 3
     have hc2 : cls n ⟨k, n :: rest, afterMark k⟩ = 2 := by cases k <;> simp [cls, afterMark]
     rw [hc2] at h1 h2 h3
     have hp := hI.phase n
     simp only [ncalls, hmem, hpend] at hp
     simp only [upd_same, hpend, hmem]
-    apply phase_mark hp
-    · rcases hc with hc | hc <;> simp [hc] at h1 hw <;> omega
-    · rcases hc with hc | hc <;> simp [hc] at h2 <;> omega
-    · rcases hc with hc | hc <;> simp [hc] at h3 <;> omega
+    rcases hc with hc | hc <;> simp only [hc] at h1 h2 h3 hw <;> simp at h1 h2 h3 hw <;>
+      exact phase_mark hp (by omega) (by omega) (by omega)
 
 theorem step_inv (atomic : Bool) (m0 : Ns → Bool) (st : St) (i : Nat) (hI : Inv m0 st)
     (hadm : admissible st i = true) (hat : atomic = true → noMark st) :
@@ -328,15 +327,15 @@ theorem step_inv (atomic : Bool) (m0 : Ns → Bool) (st : St) (i : Nat) (hI : In
               have := hadm
               simp only [admissible, hi] at this
               have h2 : st.tasks.countP (inWindow n) = 0 := by simpa using this
-              unfold cnt
+              unfold cnt cntL
               rw [← h2]; congr; funext u; exact (inWindow_eq n u).symm
-            apply inv_update m0 st i _ _ _ n hI hi (by simp) hI.noContained
+            refine inv_update m0 st i _ _ _ n hI hi (by simp) (by exact hI.noContained) ?_ ?_ ?_
             · intro n' hne
               exact ⟨hc0 n', by simp [cls, Ne.symm hne]⟩
             · intro n' _; exact ⟨rfl, rfl, rfl⟩
-            · have h1 := cnt_set st i _ ⟨k, n :: rest, .mark⟩ st.sh hi n 1
-              have h2 := cnt_set st i _ ⟨k, n :: rest, .mark⟩ st.sh hi n 2
-              have h3 := cnt_set st i _ ⟨k, n :: rest, .mark⟩ st.sh hi n 3
+            · have h1 := cnt_set st i _ ⟨k, n :: rest, .mark⟩ hi n 1
+              have h2 := cnt_set st i _ ⟨k, n :: rest, .mark⟩ hi n 2
+              have h3 := cnt_set st i _ ⟨k, n :: rest, .mark⟩ hi n 3
               have hc1 : cls n ⟨k, n :: rest, .mark⟩ = 1 := by simp [cls]
               rw [hc1, hc0 n] at h1 h2 h3
               simp at h1 h2 h3
@@ -369,16 +368,13 @@ theorem step_inv (atomic : Bool) (m0 : Ns → Bool) (st : St) (i : Nat) (hI : In
         rw [this]; exact inv_noop m0 st i _ hI hi
       | cons n rest =>
         simp only [stepTask]
-        apply inv_update m0 st i _ _ _ n hI hi (by simp) hI.noContained
+        refine inv_update m0 st i _ _ _ n hI hi (by simp) (by exact hI.noContained) ?_ ?_ ?_
         · intro n' hne
           exact ⟨by simp [cls, Ne.symm hne], by simp [cls, Ne.symm hne]⟩
         · intro n' _; exact ⟨rfl, rfl, rfl⟩
-        · have h1 := cnt_set st i _ ⟨k, n :: rest, .handler⟩
-            { st.sh with sends := upd st.sh.sends n (st.sh.sends n + 1) } hi n 1
-          have h2 := cnt_set st i _ ⟨k, n :: rest, .handler⟩
-            { st.sh with sends := upd st.sh.sends n (st.sh.sends n + 1) } hi n 2
-          have h3 := cnt_set st i _ ⟨k, n :: rest, .handler⟩
-            { st.sh with sends := upd st.sh.sends n (st.sh.sends n + 1) } hi n 3
+        · have h1 := cnt_set st i _ ⟨k, n :: rest, .handler⟩ hi n 1
+          have h2 := cnt_set st i _ ⟨k, n :: rest, .handler⟩ hi n 2
+          have h3 := cnt_set st i _ ⟨k, n :: rest, .handler⟩ hi n 3
           simp [cls] at h1 h2 h3
           have hph := hI.phase n
           simp only [ncalls] at hph
@@ -394,17 +390,14 @@ theorem step_inv (atomic : Bool) (m0 : Ns → Bool) (st : St) (i : Nat) (hI : In
         have hc : cls n ⟨k, n :: rest, .handler⟩ = 2 := by simp [cls]
         have hpos := cnt_pos st i _ hi n
         rw [hc] at hpos
-        apply inv_update m0 st i _ _ _ n hI hi (by simp) hI.noContained
+        refine inv_update m0 st i _ _ _ n hI hi (by simp) (by exact hI.noContained) ?_ ?_ ?_
         · intro n' hne
           exact ⟨by simp [cls, Ne.symm hne], by simp [cls, Ne.symm hne]⟩
         · intro n' hne
           simp [upd_other _ _ _ _ hne]
-        · have h1 := cnt_set st i _ ⟨k, n :: rest, .cleanup⟩
-            { st.sh with calls := upd st.sh.calls n (k :: st.sh.calls n) } hi n 1
-          have h2 := cnt_set st i _ ⟨k, n :: rest, .cleanup⟩
-            { st.sh with calls := upd st.sh.calls n (k :: st.sh.calls n) } hi n 2
-          have h3 := cnt_set st i _ ⟨k, n :: rest, .cleanup⟩
-            { st.sh with calls := upd st.sh.calls n (k :: st.sh.calls n) } hi n 3
+        · have h1 := cnt_set st i _ ⟨k, n :: rest, .cleanup⟩ hi n 1
+          have h2 := cnt_set st i _ ⟨k, n :: rest, .cleanup⟩ hi n 2
+          have h3 := cnt_set st i _ ⟨k, n :: rest, .cleanup⟩ hi n 3
           simp [cls] at h1 h2 h3
           have hph := hI.phase n
           simp only [ncalls] at hph
@@ -423,23 +416,298 @@ theorem step_inv (atomic : Bool) (m0 : Ns → Bool) (st : St) (i : Nat) (hI : In
         rw [hc] at hpos
         have hph := hI.phase n
         simp only [ncalls] at hph
-        have h1 := cnt_set st i _ (advance ⟨k, n :: rest, .cleanup⟩ rest)
-            { st.sh with mem := upd st.sh.mem n false, pend := upd st.sh.pend n (st.sh.pend n - 1) } hi n 1
-        have h2 := cnt_set st i _ (advance ⟨k, n :: rest, .cleanup⟩ rest)
-            { st.sh with mem := upd st.sh.mem n false, pend := upd st.sh.pend n (st.sh.pend n - 1) } hi n 2
-        have h3 := cnt_set st i _ (advance ⟨k, n :: rest, .cleanup⟩ rest)
-            { st.sh with mem := upd st.sh.mem n false, pend := upd st.sh.pend n (st.sh.pend n - 1) } hi n 3
+        have h1 := cnt_set st i _ (advance ⟨k, n :: rest, .cleanup⟩ rest) hi n 1
+        have h2 := cnt_set st i _ (advance ⟨k, n :: rest, .cleanup⟩ rest) hi n 2
+        have h3 := cnt_set st i _ (advance ⟨k, n :: rest, .cleanup⟩ rest) hi n 3
         rw [cls_advance n _ rest, hc] at h1 h2 h3
         simp at h1 h2 h3
         obtain ⟨hmem, hnew⟩ := phase_cleanup hph hpos h1 h2 h3
         have halive : alive st.sh n = true := by simp [alive, hmem]
         simp only [halive, if_true]
-        apply inv_update m0 st i _ _ _ n hI hi (advance_pc_ne_raised _ _) hI.noContained
+        refine inv_update m0 st i _ _ _ n hI hi (advance_pc_ne_raised _ _) (by exact hI.noContained) ?_ ?_ ?_
         · intro n' hne
           exact ⟨by simp [cls, Ne.symm hne], cls_advance n' _ rest⟩
         · intro n' hne
           simp [upd_other _ _ _ _ hne]
         · simp only [upd_same]
           exact hnew
+
+/-! ## the atomic gate never opens a window -/
+
+theorem stepTask_noMark (sh : Shared) (t : Task) (h : t.pc ≠ .mark) :
+    (stepTask true sh t).1.pc ≠ .mark := by
+  obtain ⟨k, todo, pc⟩ := t
+  cases pc <;> cases todo <;>
+    simp [stepTask, markStep, advance] at h ⊢ <;>
+    (repeat' split) <;> simp_all [afterMark_ne_mark] <;> (cases k <;> simp [afterMark])
+
+theorem noMark_step (st : St) (i : Nat) (h : noMark st) : noMark (step true st i) := by
+  unfold step
+  cases hi : st.tasks[i]? with
+  | none => exact h
+  | some t =>
+    intro u hu
+    rcases mem_set_cases hu with hu | rfl
+    · exact h u hu
+    · exact stepTask_noMark st.sh t (h t (mem_of_getElem? hi))
+
+theorem admissible_of_noMark (st : St) (i : Nat) (h : noMark st) : admissible st i = true := by
+  unfold admissible
+  cases hi : st.tasks[i]? with
+  | none => rfl
+  | some t =>
+    simp only
+    split
+    · have := noMark_cnt st h
+      rename_i n _ _ _
+      have h1 := this n
+      unfold cnt cntL at h1
+      have : st.tasks.countP (inWindow n) = 0 := by
+        rw [← h1]; congr; funext u; exact inWindow_eq n u
+      simp [this]
+    · rfl
+
+theorem run_inv_atomic (m0 : Ns → Bool) (sched : List Nat) (st : St) (hI : Inv m0 st)
+    (hm : noMark st) : Inv m0 (run true st sched) ∧ noMark (run true st sched) := by
+  induction sched generalizing st with
+  | nil => exact ⟨hI, hm⟩
+  | cons i r ih =>
+    simp only [run, List.foldl_cons]
+    exact ih (step true st i) (step_inv true m0 st i hI (admissible_of_noMark st i hm) (fun _ => hm))
+      (noMark_step st i hm)
+
+theorem run_inv_serial (m0 : Ns → Bool) (sched : List Nat) (st : St) (hI : Inv m0 st)
+    (hs : gateSerial st sched = true) : Inv m0 (run false st sched) := by
+  induction sched generalizing st with
+  | nil => exact hI
+  | cons i r ih =>
+    simp only [gateSerial, Bool.and_eq_true] at hs
+    simp only [run, List.foldl_cons]
+    exact ih (step false st i) (step_inv false m0 st i hI hs.1 (by simp)) hs.2
+
+/-! ## frame: namespaces no task goes through -/
+
+/-- task `t` may still act on namespace `n` -/
+def touches (n : Ns) (t : Task) : Bool :=
+  match t.pc with
+  | .chandler | .csend | .done | .raised => false
+  | _ => t.todo.contains n
+
+def targeted (st : St) (n : Ns) : Bool := st.tasks.any (touches n)
+
+theorem stepTask_frame (a : Bool) (sh : Shared) (t : Task) (n : Ns) (h : touches n t = false) :
+    (stepTask a sh t).2.mem n = sh.mem n ∧ (stepTask a sh t).2.pend n = sh.pend n ∧
+    (stepTask a sh t).2.calls n = sh.calls n ∧ touches n (stepTask a sh t).1 = false := by
+  obtain ⟨k, todo, pc⟩ := t
+  cases pc <;> cases todo <;>
+    simp [stepTask, markStep, advance, touches, upd] at h ⊢ <;>
+    (repeat' split) <;> simp_all [upd] <;> (try (cases k <;> simp_all [afterMark])) <;>
+    (try (intro hx; simp_all))
+
+theorem step_frame (a : Bool) (st : St) (i : Nat) (n : Ns) (h : targeted st n = false) :
+    (step a st i).sh.mem n = st.sh.mem n ∧ (step a st i).sh.pend n = st.sh.pend n ∧
+    (step a st i).sh.calls n = st.sh.calls n ∧ targeted (step a st i) n = false := by
+  unfold step
+  cases hi : st.tasks[i]? with
+  | none => exact ⟨rfl, rfl, rfl, h⟩
+  | some t =>
+    have hall : ∀ u ∈ st.tasks, touches n u = false := by
+      simpa [targeted] using h
+    obtain ⟨h1, h2, h3, h4⟩ := stepTask_frame a st.sh t n (hall t (mem_of_getElem? hi))
+    refine ⟨h1, h2, h3, ?_⟩
+    simp only [targeted, List.any_eq_false]
+    intro u hu
+    rcases mem_set_cases hu with hu | rfl
+    · simp [hall u hu]
+    · simp [h4]
+
+theorem run_frame (a : Bool) (sched : List Nat) (st : St) (n : Ns) (h : targeted st n = false) :
+    (run a st sched).sh.mem n = st.sh.mem n ∧ (run a st sched).sh.pend n = st.sh.pend n ∧
+    (run a st sched).sh.calls n = st.sh.calls n := by
+  induction sched generalizing st with
+  | nil => exact ⟨rfl, rfl, rfl⟩
+  | cons i r ih =>
+    simp only [run, List.foldl_cons]
+    obtain ⟨h1, h2, h3, h4⟩ := step_frame a st i n h
+    obtain ⟨g1, g2, g3⟩ := ih (step a st i) h4
+    exact ⟨g1.trans h1, g2.trans h2, g3.trans h3⟩
+
+/-! ## quiescence: a targeted namespace does not stay untouched -/
+
+/-- task `t` has a `check` of namespace `n` still ahead of it -/
+def wants (n : Ns) (t : Task) : Bool :=
+  match t.pc with
+  | .check => t.todo.contains n
+  | .mark | .send | .handler | .cleanup => t.todo.tail.contains n
+  | _ => false
+
+def nWants (st : St) (n : Ns) : Nat := st.tasks.countP (wants n)
+
+/-- namespace n is untouched: connected, not pending, nobody in its gate window -/
+def Untouched (st : St) (n : Ns) : Prop :=
+  st.sh.mem n = true ∧ st.sh.pend n = 0 ∧ cnt st n 1 = 0
+
+theorem wants_advance (n : Ns) (t : Task) (rest : List Ns) :
+    wants n (advance t rest) = rest.contains n := by
+  unfold advance wants
+  cases rest <;> simp
+
+theorem markStep_other (sh : Shared) (t : Task) (m : Ns) (rest : List Ns) (n : Ns) (hne : m ≠ n) :
+    (markStep sh t m rest).2.mem n = sh.mem n ∧ (markStep sh t m rest).2.pend n = sh.pend n := by
+  unfold markStep
+  have : n ≠ m := Ne.symm hne
+  split
+  · simp [upd, this]
+  · split <;> simp [upd, this]
+
+theorem markStep_same (sh : Shared) (t : Task) (m : Ns) (rest : List Ns) :
+    (markStep sh t m rest).2.pend m = sh.pend m + 1 := by
+  unfold markStep
+  split
+  · simp [upd]
+  · split <;> simp [upd]
+
+theorem markStep_wants (sh : Shared) (k : Kind) (p : Pc) (m : Ns) (rest : List Ns) (n : Ns)
+    (hr : (markStep sh ⟨k, m :: rest, p⟩ m rest).1.pc ≠ .raised) :
+    wants n (markStep sh ⟨k, m :: rest, p⟩ m rest).1 = rest.contains n ∧
+    (m ≠ n → cls n (markStep sh ⟨k, m :: rest, p⟩ m rest).1 = 0) := by
+  unfold markStep at hr ⊢
+  split
+  · constructor
+    · cases k <;> simp [wants, afterMark]
+    · intro hne; simp [cls, hne]
+  · split
+    · exact ⟨wants_advance n _ rest, fun _ => cls_advance n _ rest⟩
+    · rename_i h1 h2; simp [h1, h2] at hr
+
+theorem stepTask_untouched (a : Bool) (sh : Shared) (t : Task) (n : Ns)
+    (hm : (stepTask a sh t).2.mem n = true) (hp : (stepTask a sh t).2.pend n = 0)
+    (hc : cls n (stepTask a sh t).1 ≠ 1) (hr : (stepTask a sh t).1.pc ≠ .raised) :
+    sh.mem n = true ∧ sh.pend n = 0 ∧ cls n t ≠ 1 ∧ wants n (stepTask a sh t).1 = wants n t := by
+  obtain ⟨k, todo, pc⟩ := t
+  cases pc with
+  | chandler => simp only [stepTask] at hm hp ⊢; exact ⟨hm, hp, by simp [cls_of_pc_zero], by simp [wants]⟩
+  | csend => simp only [stepTask] at hm hp ⊢; exact ⟨hm, hp, by simp [cls_of_pc_zero], by simp [wants]⟩
+  | done =>
+    have e : stepTask a sh ⟨k, todo, .done⟩ = (⟨k, todo, .done⟩, sh) := by unfold stepTask; simp
+    rw [e] at hm hp ⊢; exact ⟨hm, hp, by simp [cls_of_pc_zero], rfl⟩
+  | raised =>
+    have e : stepTask a sh ⟨k, todo, .raised⟩ = (⟨k, todo, .raised⟩, sh) := by unfold stepTask; simp
+    rw [e] at hm hp ⊢; exact ⟨hm, hp, by simp [cls_of_pc_zero], rfl⟩
+  | check =>
+    cases todo with
+    | nil => simp only [stepTask] at hm hp ⊢; exact ⟨hm, hp, by simp [cls_of_pc_zero], by simp [wants]⟩
+    | cons m rest =>
+      have hcl : cls n ⟨k, m :: rest, .check⟩ ≠ 1 := by simp [cls_of_pc_zero]
+      simp only [stepTask] at hm hp hc hr ⊢
+      by_cases hmn : m = n
+      · subst hmn
+        exfalso
+        by_cases hconn : connected sh m = true
+        · simp only [hconn, if_true] at hm hp hc
+          cases a with
+          | true =>
+            simp only [if_true] at hp
+            rw [markStep_same] at hp; omega
+          | false =>
+            simp only [Bool.false_eq_true, if_false] at hc
+            exact hc (by simp [cls])
+        · have hconn' := hconn
+          simp only [hconn, Bool.false_eq_true, if_false] at hm hp
+          simp [connected, hm, hp] at hconn'
+      · by_cases hconn : connected sh m = true
+        · simp only [hconn, if_true] at hm hp hc hr ⊢
+          cases a with
+          | true =>
+            simp only [if_true] at hm hp hc hr ⊢
+            obtain ⟨e1, e2⟩ := markStep_other sh ⟨k, m :: rest, .check⟩ m rest n hmn
+            refine ⟨e1 ▸ hm, e2 ▸ hp, hcl, ?_⟩
+            rw [(markStep_wants sh k .check m rest n hr).1]
+            simp [wants, Ne.symm hmn]
+          | false =>
+            simp only [Bool.false_eq_true, if_false] at hm hp ⊢
+            exact ⟨hm, hp, hcl, by simp [wants, Ne.symm hmn]⟩
+        · simp only [hconn, Bool.false_eq_true, if_false] at hm hp ⊢
+          refine ⟨hm, hp, hcl, ?_⟩
+          rw [wants_advance]; simp [wants, Ne.symm hmn]
+  | mark =>
+    cases todo with
+    | nil =>
+      have e : stepTask a sh ⟨k, [], .mark⟩ = (⟨k, [], .mark⟩, sh) := by unfold stepTask; simp
+      rw [e] at hm hp ⊢; exact ⟨hm, hp, by simp [cls], rfl⟩
+    | cons m rest =>
+      simp only [stepTask] at hm hp hc hr ⊢
+      by_cases hmn : m = n
+      · subst hmn; exfalso; rw [markStep_same] at hp; omega
+      · obtain ⟨e1, e2⟩ := markStep_other sh ⟨k, m :: rest, .mark⟩ m rest n hmn
+        refine ⟨e1 ▸ hm, e2 ▸ hp, by simp [cls, hmn], ?_⟩
+        rw [(markStep_wants sh k .mark m rest n hr).1]
+        simp [wants]
+  | send =>
+    cases todo with
+    | nil =>
+      have e : stepTask a sh ⟨k, [], .send⟩ = (⟨k, [], .send⟩, sh) := by unfold stepTask; simp
+      rw [e] at hm hp ⊢; exact ⟨hm, hp, by simp [cls], rfl⟩
+    | cons m rest =>
+      simp only [stepTask] at hm hp ⊢
+      refine ⟨hm, hp, ?_, by simp [wants]⟩
+      simp only [cls]; split <;> simp
+  | handler =>
+    cases todo with
+    | nil =>
+      have e : stepTask a sh ⟨k, [], .handler⟩ = (⟨k, [], .handler⟩, sh) := by unfold stepTask; simp
+      rw [e] at hm hp ⊢; exact ⟨hm, hp, by simp [cls], rfl⟩
+    | cons m rest =>
+      simp only [stepTask] at hm hp ⊢
+      refine ⟨hm, hp, ?_, by simp [wants]⟩
+      simp only [cls]; split <;> simp
+  | cleanup =>
+    cases todo with
+    | nil =>
+      have e : stepTask a sh ⟨k, [], .cleanup⟩ = (⟨k, [], .cleanup⟩, sh) := by unfold stepTask; simp
+      rw [e] at hm hp ⊢; exact ⟨hm, hp, by simp [cls], rfl⟩
+    | cons m rest =>
+      simp only [stepTask] at hm hp ⊢
+      have hcl : cls n ⟨k, m :: rest, .cleanup⟩ ≠ 1 := by
+        simp only [cls]; split <;> simp
+      by_cases hmn : m = n
+      · subst hmn
+        exfalso
+        by_cases hal : alive sh m = true
+        · simp [hal, upd] at hm
+        · have hal' := hal
+          simp only [hal, Bool.false_eq_true, if_false] at hm
+          simp [alive, hm] at hal'
+      · have hnm : n ≠ m := Ne.symm hmn
+        by_cases hal : alive sh m = true
+        · simp [hal, upd, hnm] at hm hp
+          exact ⟨hm, hp, hcl, by rw [wants_advance]; simp [wants]⟩
+        · simp only [hal, Bool.false_eq_true, if_false] at hm hp
+          exact ⟨hm, hp, hcl, by rw [wants_advance]; simp [wants]⟩
+
+theorem step_untouched (a : Bool) (st : St) (i : Nat) (n : Ns) (h : Untouched (step a st i) n)
+    (hr : ∀ t ∈ (step a st i).tasks, t.pc ≠ .raised) :
+    Untouched st n ∧ nWants (step a st i) n = nWants st n := by
+  unfold step at h ⊢
+  cases hi : st.tasks[i]? with
+  | none => simp only [hi] at h; exact ⟨h, rfl⟩
+  | some t =>
+    simp only [hi] at h ⊢
+    obtain ⟨hm, hp, hc⟩ := h
+    simp only [cnt_mk] at hc
+    have h1 := cnt_set st i t (stepTask a st.sh t).1 hi n 1
+    have hw := countP_set_some (wants n) st.tasks i t (stepTask a st.sh t).1 hi
+    have hc1 : cls n (stepTask a st.sh t).1 ≠ 1 := by
+      intro hx; rw [hx] at h1; simp only [if_true] at h1; trace_state; omega
+    have hr1 : (stepTask a st.sh t).1.pc ≠ .raised := by
+      apply hr; unfold step; simp only [hi]
+      obtain ⟨hlt, _⟩ := List.getElem?_eq_some_iff.mp hi
+      exact List.mem_set hlt _
+    obtain ⟨g1, g2, g3, g4⟩ := stepTask_untouched a st.sh t n hm hp hc1 hr1
+    refine ⟨⟨g1, g2, ?_⟩, ?_⟩
+    · simp [g3, hc1] at h1; omega
+    · unfold nWants; simp only
+      rw [g4] at hw; omega
+
 
 end Sio.Sched
